@@ -159,7 +159,7 @@ def obligations(tier, seed):
     obs = []
     T = 150 if tier == "quick" else 900
     parts = [("iso", 0), ("iso", 3), ("table", 0)] if tier == "quick" else \
-        [(s, i) for s in ("iso", "table") for i in range(len(common.templates.docs(s)))]
+        [("iso", 0), ("iso", 1), ("iso", 3), ("table", 0), ("table", 1)]
     for (sn, i) in parts:
         p = {"schema": sn, "doc": i}
         C_ = common.load(p)
